@@ -2,24 +2,21 @@ import os, sys
 sys.path.insert(0, os.path.dirname(os.path.abspath(__file__)))
 from common import *
 PROPERTY = 'C01'
-LIGHT = ['-S', '-passes=always-inline,function(mem2reg,simplifycfg),cgscc(inline),elim-avail-extern,globaldce,function(mem2reg,instsimplify,simplifycfg)']
-MODELS = ['libc.c', 'cxxrt.c', 'stdstring.c', 'sched.c', 'single_threaded.c', 'pthread_clock.c', 'thread_cv.c']
-def h(q, b, k, t, light=True):
-    d = dict(src='c01_batch.cc', defines=['QMAX=%d' % q, 'BMAX=%d' % b, 'KITEMS=%d' % k, 'TICKETS=%d' % t, 'OTEL_INTERNAL_LOG_LEVEL=0'], models=MODELS, roots=['verif_worker_step'],
-             ir2c_flags=['--new-array-max', '136'], model_defines=['VERIF_NEW_ARRAY_MAX=136'])
-    if light: d['opt_flags'] = LIGHT
-    return d
-HARNESSES = {'c01_q2b1k2t0': h(2, 1, 2, 0), 'c01_q2b1k2t0_o1': h(2, 1, 2, 0, light=False)}
-US = {'verif_mem': 70}
-QUERIES = [
-  dict(name='drop_q2', harness='c01_q2b1k2t0_o1', entry='h_drop_only_when_full', unwind=14, unwindset=US, timeout=600, tier='quick', shape='probe'),
-  dict(name='ff_q2', harness='c01_q2b1k2t0_o1', entry='h_force_flush', unwind=14, unwindset=US, timeout=600, tier='quick', shape='probe'),
-  dict(name='sd_q2', harness='c01_q2b1k2t0_o1', entry='h_shutdown', unwind=14, unwindset=US, timeout=600, tier='quick', shape='probe'),
-  dict(name='export_cycle_q2b1k2t0', harness='c01_q2b1k2t0', entry='h_export_cycle', unwind=14, unwindset=US, timeout=600, tier='quick', shape='queue 2, batch 1, 2 records, ForceFlush never used'),
-  dict(name='export_cycle_q2b1k2t0_o1', harness='c01_q2b1k2t0_o1', entry='h_export_cycle', unwind=14, unwindset=US, timeout=600, tier='thorough', shape='same, -O1 IR'),
-]
-for e in ('h_p0','h_p1','h_p2','h_p3'):
-    QUERIES.append(dict(name=e[2:], harness='c01_q2b1k2t0_o1', entry=e, unwind=14, unwindset=US, timeout=600, tier='quick', shape='probe'))
-BOUNDS = []
-OUTSIDE = []
-ASSUMPTIONS = []
+from batch_common import *
+HARNESSES = {}; QUERIES = []
+# export cycles: (queue, batch, records, ticket history, interference budget)
+SHAPES_Q = [(2, 1, 2, 0, 0), (4, 2, 4, 0, 0), (4, 2, 4, 1, 0), (4, 2, 3, 2, 1), (4, 2, 2, 2, 3), (4, 2, 2, 0, 2)]
+SHAPES_T = [(2, 1, 1, 0, 0), (2, 1, 0, 0, 0), (4, 2, 1, 0, 0), (4, 2, 2, 0, 0), (4, 2, 3, 0, 0), (4, 2, 3, 1, 0), (4, 2, 4, 2, 0), (4, 2, 2, 2, 1), (4, 2, 2, 2, 5), (4, 2, 3, 1, 4), (4, 3, 3, 1, 1), (3, 3, 3, 1, 0), (4, 4, 4, 2, 0), (2, 1, 1, 2, 3)]
+for logs in (False, True):
+    for tier, shapes in (('quick', SHAPES_Q), ('thorough', SHAPES_T)):
+        for (q, b, k, t, i) in shapes:
+            if logs and tier == 'quick' and (q, b, k, t, i) not in ((4, 2, 4, 1, 0), (4, 2, 2, 2, 3)): tier_ = 'thorough'
+            else: tier_ = tier
+            add_query(HARNESSES, QUERIES, logs, q, b, k, t, i, 'h_export_cycle', 'export_cycle', tier_)
+    for (q, b) in ((2, 1), (4, 2)):
+        add_query(HARNESSES, QUERIES, logs, q, b, q, 0, 0, 'h_drop_only_when_full', 'drop_only_when_full', 'quick' if (q == 2 or not logs) else 'thorough')
+BOUNDS = ['max_queue_size 2..4, max_export_batch_size 1..4, 0..4 records produced before the cycle, every size concrete per query (one query per shape, listed in samples)',
+          'ticket history classes: ForceFlush never used / used earlier and completed / one flush outstanding', 'while the worker is inside the exporter (first Export call and/or the exporter ForceFlush), a concurrent producer call and/or a concurrent ForceFlush ticket, one concrete pattern per query']
+OUTSIDE = ['real interleavings of producers with the worker (the lock-free queue under every interleaving is C11; here producer calls and ticket issues happen at the points where the worker is inside the exporter)',
+           'per-producer order for several producer threads beyond "the queue is FIFO and each Add is atomic" (C11)', 'schedule_delay / exporter latency (time does not enter OnEnd/Export)', 'queue sizes above 4', 'DoBackgroundWork loop itself (its body is Export / DrainQueue, which are run directly)']
+ASSUMPTIONS = BATCH_ASSUMPTIONS
